@@ -1,10 +1,11 @@
 (* Extraction of the wrapint family (crab::wrapint and wrapped intervals).  Only
    ExtrOcamlBasic; Z / positive stay the extracted inductives. *)
 Require Import Extraction ExtrOcamlBasic.
-From CrabV Require Import Num.Wrapint.
+From CrabV Require Import Num.Wrapint Scalar.WrappedItv.
 Extraction Language OCaml.
 Set Extraction KeepSingleton.
-Extraction "../ocaml/gen/wrapint_model.ml"
+(* nat and N are only there because ocaml/zio.ml.in mentions their constructors *)
+Extraction "../ocaml/gen/wrapint_model.ml" nat BinNums.N
   Wrapint.wrapint Wrapint.of_u64 Wrapint.of_z Wrapint.of_q Wrapint.of_string_u64
   Wrapint.get_bitwidth Wrapint.fits_wrapint Wrapint.fits_wrapint_q Wrapint.msb
   Wrapint.get_signed_max Wrapint.get_signed_min Wrapint.get_unsigned_max Wrapint.get_unsigned_min
@@ -14,4 +15,14 @@ Extraction "../ocaml/gen/wrapint_model.ml"
   Wrapint.wsdiv Wrapint.wudiv Wrapint.wsrem Wrapint.wurem
   Wrapint.wadd_assign Wrapint.wmul_assign Wrapint.wsub_assign Wrapint.wpreinc Wrapint.wpredec
   Wrapint.wpostinc Wrapint.wpostdec Wrapint.wshl Wrapint.wlshr Wrapint.washr
-  Wrapint.wsext Wrapint.wzext Wrapint.wkeep_lower Wrapint.valid_width.
+  Wrapint.wsext Wrapint.wzext Wrapint.wkeep_lower Wrapint.valid_width
+  WrappedItv.witv WrappedItv.wi_mk WrappedItv.wi_single WrappedItv.wi_top WrappedItv.wi_bottom
+  WrappedItv.is_bottom WrappedItv.is_top WrappedItv.mk_winterval1 WrappedItv.mk_winterval2
+  WrappedItv.is_singleton WrappedItv.wi_at WrappedItv.wi_leq WrappedItv.wi_eq WrappedItv.wi_join
+  WrappedItv.wi_meet WrappedItv.signed_limit WrappedItv.unsigned_limit
+  WrappedItv.cross_signed_limit WrappedItv.cross_unsigned_limit WrappedItv.wi_mul
+  WrappedItv.wi_add WrappedItv.wi_neg WrappedItv.wi_sub WrappedItv.wi_sdiv WrappedItv.wi_udiv
+  WrappedItv.default_implementation WrappedItv.wi_zext WrappedItv.wi_sext WrappedItv.wi_trunc
+  WrappedItv.wi_shl WrappedItv.wi_lshr WrappedItv.wi_ashr WrappedItv.wi_widen
+  WrappedItv.wi_lower_half_line WrappedItv.wi_upper_half_line WrappedItv.wi_to_interval
+  WrappedItv.wi_trim_interval.
